@@ -200,6 +200,62 @@ def build() -> Check:
     ck.floor("decision_atoms", len(a_dec), 3)
     ck.ob("R3.same-threshold-atoms", fn_construct(gr), a_dec == a_cls,
           f"only in the stop decision: {sorted(a_dec - a_cls)}; only in the classifier: {sorted(a_cls - a_dec)}")
+    # a quantity derived locally on both sides (failure_percentage) is derived from the same counters: the atoms above compare names only
+    def local_defs(fn_nodes):
+        d = {}
+        for fn_node in fn_nodes:
+            for st in ast.walk(fn_node):
+                if isinstance(st, ast.Assign) and len(st.targets) == 1 and isinstance(st.targets[0], ast.Name):
+                    d.setdefault(st.targets[0].id, set()).add(norm_atom(ast.unparse(st.value)))
+                elif isinstance(st, ast.AnnAssign) and st.value is not None and isinstance(st.target, ast.Name):
+                    d.setdefault(st.target.id, set()).add(norm_atom(ast.unparse(st.value)))
+        return d
+    d_dec, d_cls = local_defs([sc.node, ic.node]), local_defs([gr.node])
+    atom_names = {w for a in a_dec | a_cls for w in re.findall(r"[A-Za-z_]\w*", a)}
+    shared = sorted(n_ for n_ in atom_names if n_ in d_dec and n_ in d_cls)
+    ck.analysed["derived_quantities_compared"] = shared
+    ck.floor("derived_quantities_compared", len(shared), 1)
+    for n_ in shared:
+        ck.ob("R3.same-derived-quantity", fn_construct(gr), d_dec[n_] == d_cls[n_],
+              f"`{n_}` is compared with the same threshold on both sides but means different things: the stop decision computes {sorted(d_dec[n_])}, the classifier "
+              f"{sorted(d_cls[n_])}; a call ended by one policy is then reported with the reason of another", cell=n_)
+    # the counters the classifier is called with are what their names say (per status of the reported items)
+    WANT_STATUSES = {"failure_count": {"FAILED"}, "success_count": {"SUCCEEDED"}, "completed_count": {"SUCCEEDED", "FAILED"},
+                     "total_count": {"SUCCEEDED", "FAILED", "STARTED"}}
+    n_bind = 0
+    for fi in models.classes["BatchResult"].methods.values():
+        if isinstance(fi.node, ast.Lambda):
+            continue
+        defs = {}
+        for st in ast.walk(fi.node):
+            if isinstance(st, ast.Assign) and len(st.targets) == 1 and isinstance(st.targets[0], ast.Name):
+                defs.setdefault(st.targets[0].id, []).append(st.value)
+        def statuses_of(e, depth=0):
+            out, whole = set(), False
+            for n in ast.walk(e):
+                if isinstance(n, ast.Attribute) and isinstance(n.value, ast.Name) and n.value.id == "BatchItemStatus":
+                    out.add(n.attr)
+                elif isinstance(n, ast.Call) and isinstance(n.func, ast.Name) and n.func.id == "len":
+                    whole = True
+                elif isinstance(n, ast.Name) and n.id in defs and depth < 6 and n.id not in ("counts", "statuses"):
+                    for d_ in defs[n.id]:
+                        o2, w2 = statuses_of(d_, depth + 1)
+                        out |= o2
+                        whole = whole or w2
+            return out, whole
+        for c in ast.walk(fi.node):
+            if isinstance(c, ast.Call) and isinstance(c.func, ast.Attribute) and c.func.attr == "_get_completion_reason":
+                for kw in c.keywords:
+                    if kw.arg in WANT_STATUSES:
+                        n_bind += 1
+                        got, whole = statuses_of(kw.value)
+                        ok = got == WANT_STATUSES[kw.arg] or (kw.arg == "total_count" and whole and not got)
+                        ck.ob("R3.classifier-counters-bound-to-their-statuses", fn_construct(fi), ok,
+                              f"`{kw.arg}={ast.unparse(kw.value)}` counts the items of status {sorted(got)}{' / all items' if whole else ''}; the classifier reads it as {sorted(WANT_STATUSES[kw.arg])}",
+                              cell=kw.arg)
+                if c.args:
+                    ck.ob("R3.classifier-counters-bound-to-their-statuses", fn_construct(fi), False, "positional arguments: the binding cannot be read off the call", cell="positional")
+    ck.floor("classifier_counter_bindings", n_bind, 4)
     # fail-fast guard: which fields must be None
     g_dec = None
     for st in ast.walk(sc.node):
@@ -487,16 +543,75 @@ def _round_h3_rules(ck, prog):
     for n in ast.walk(ex.node):
         for c in ast.iter_child_nodes(n):
             par[id(c)] = n
+    # local names in the test stand for what they were assigned (`decided = self.counters.should_complete()` ... `if ... and not decided`)
+    loc_defs = {}
+    for st in ast.walk(ex.node):
+        if isinstance(st, ast.Assign) and len(st.targets) == 1 and isinstance(st.targets[0], ast.Name):
+            loc_defs.setdefault(st.targets[0].id, []).append(st.value)
+
+    def expanded(test):
+        t_ = ast.unparse(test)
+        for nm in {n.id for n in ast.walk(test) if isinstance(n, ast.Name)}:
+            if len(loc_defs.get(nm, [])) == 1:
+                t_ = re.sub(rf"\b{nm}\b", "(" + ast.unparse(loc_defs[nm][0]) + ")", t_)
+        return t_
     for r in raises:
         cur, guarded = par.get(id(r)), False
         while cur is not None and not guarded:
             if isinstance(cur, ast.If) and any(r is x for b in cur.body for x in ast.walk(b)):
-                t = ast.unparse(cur.test)
+                t = expanded(cur.test)
                 guarded = ("should_complete" in t or "is_complete" in t or "should_continue" in t) and "not " in t
             cur = par.get(id(cur))
         ck.ob("R5.decided-policy-overrules-a-recorded-suspension", fn_construct(ex), guarded,
               "execute() raises the suspension a done-callback recorded without looking at the completion policy again: a branch that finished while a sibling "
               "was recording its suspension (state published, not yet counted) has decided the operation, which nevertheless answers PENDING", where=f"line {r.lineno}")
+    # R5 one outcome, two places: a finishing branch writes its state (exe_state.complete / fail) and the counters (complete_task / fail_task). A sibling's
+    # done-callback that takes the complete-or-suspend decision between the two writes sees "nothing running" AND "policy undecided" and records a
+    # suspension; execute(), woken by it, reads the counters before the second write as well (g2_orphan2 #1: the re-check above narrows the window, it does
+    # not close it - parallel([waits_for_callback, quick], min_successful=1) answers PENDING with `quick` recorded SUCCEEDED). Necessary: both writes of a
+    # pair, the decision in the done-callback and execute()'s second look all happen inside critical sections of ONE lock.
+    otc = cex.methods.get("_on_task_complete")
+    if otc is None:
+        raise AnalysisError("ConcurrentExecutor._on_task_complete not found")
+
+    def lock_regions(fn_node):
+        # {lock expression text: [statements of the with-bodies]}
+        out = {}
+        for w in ast.walk(fn_node):
+            if isinstance(w, ast.With):
+                for it in w.items:
+                    out.setdefault(ast.unparse(it.context_expr), []).append(w)
+        return out
+
+    def inside(region_withs, node):
+        return any(node is x for w in region_withs for b in w.body for x in ast.walk(b))
+    regs = lock_regions(otc.node)
+    calls = [c for c in ast.walk(otc.node) if isinstance(c, ast.Call) and isinstance(c.func, ast.Attribute)]
+    pairs_ = []
+    for state_m, count_m in (("complete", "complete_task"), ("fail", "fail_task")):
+        a_ = [c for c in calls if c.func.attr == state_m and "counters" not in ast.unparse(c.func.value)]
+        b_ = [c for c in calls if c.func.attr == count_m]
+        if not a_ or not b_:
+            raise AnalysisError(f"_on_task_complete: no {state_m}/{count_m} pair found")
+        pairs_.append((state_m, a_ + b_))
+    decision = [c for c in calls if c.func.attr in ("should_complete", "should_execution_suspend")]
+    if len(decision) < 2:
+        raise AnalysisError("_on_task_complete: complete-or-suspend decision not found")
+    ck.floor("outcome_write_pairs", len(pairs_), 2)
+    common_locks = [lk for lk, ws in regs.items() if all(all(inside(ws, c) for c in cs) for _m, cs in pairs_) and all(inside(ws, c) for c in decision)]
+    # each pair must sit in ONE region (not two separate `with` of the same lock)
+    one_region = [lk for lk in common_locks if all(any(all(inside([w], c) for c in cs) for w in regs[lk]) for _m, cs in pairs_)
+                  and any(all(inside([w], c) for c in decision) for w in regs[lk])]
+    ex_regs = lock_regions(ex.node)
+    second_look = [c for c in ast.walk(ex.node) if isinstance(c, ast.Call) and isinstance(c.func, ast.Attribute) and c.func.attr in ("should_complete", "is_complete", "should_continue")]
+    ex_ok = [lk for lk in one_region if lk in ex_regs and second_look and all(inside(ex_regs[lk], c) for c in second_look)]
+    ck.analysed["decision_lock"] = ex_ok or one_region or common_locks
+    ck.ob("R5.outcome-published-and-counted-in-one-critical-section", fn_construct(otc), bool(ex_ok),
+          ("state and counter of a finishing branch are written, and the complete-or-suspend decision is taken, without a common lock" if not common_locks else
+           f"{common_locks} is taken separately around the two writes of a pair / around the two reads of the decision" if not one_region else
+           f"execute() takes its second look at the policy outside {one_region}") +
+          ": a sibling that suspends between the two writes records a suspension for an operation that is already decided; it answers PENDING although e.g. "
+          "min_successful is reached and recorded" if not ex_ok else f"lock {ex_ok}")
     # R2 "returns exactly when its completion policy is decided": in a re-invocation part of the decision is already on record - branches an earlier
     # invocation finished. They are counted only when a pool worker gets round to traversing them again (queue order, max_concurrency), so a decided call
     # keeps waiting behind a running branch, and a finished branch can be delivered as STARTED. Necessary: execute() consults the records before it submits.
